@@ -785,6 +785,7 @@ async fn run_compio(sc: &Scn, cmd: &str, payload: Vec<u8>, file: &str) -> Obs {
 
 thread_local! {
     static ORACLE: std::cell::RefCell<Option<(String, Obs)>> = const { std::cell::RefCell::new(None) };
+    static PIPE_ORACLE: std::cell::RefCell<Option<(String, PipeObs)>> = const { std::cell::RefCell::new(None) };
     static RTS: std::cell::RefCell<Vec<(String, Runtime)>> = const { std::cell::RefCell::new(vec![]) };
 }
 
@@ -817,7 +818,232 @@ fn tmp_file(tag: &str) -> String {
     dir.join(format!("{}-{tag}", CASE_NO.fetch_add(1, Ordering::Relaxed))).to_string_lossy().into_owned()
 }
 
+// ---------------------------------------------------------------- pipelines: `a | b` through the Stdio conversions
+
+#[derive(Default, Debug, Clone)]
+struct PipeObs {
+    out: Vec<u8>,
+    a_err: Vec<u8>,
+    b_err: Vec<u8>,
+    a: Option<ExitStatus>,
+    b: Option<ExitStatus>,
+    errors: Vec<String>,
+    /// O_NONBLOCK was set on the descriptor handed to the second child
+    nonblocking: bool,
+}
+
+fn fd_nonblocking(fd: RawFd) -> bool {
+    let fl = unsafe { libc::fcntl(fd, libc::F_GETFL) };
+    fl >= 0 && fl & libc::O_NONBLOCK != 0
+}
+
+/// the same pipeline under `std::process`
+fn pipe_oracle(dir: &str, cmd_a: &str, cmd_b: &str) -> PipeObs {
+    let mut o = PipeObs::default();
+    let sh = |c: &str| {
+        let mut x = std::process::Command::new("/bin/sh");
+        x.arg("-c").arg(c);
+        x
+    };
+    let r: io::Result<()> = (|| {
+        let (mut a, b) = if dir == "out2in" {
+            let mut a = sh(cmd_a).stdin(Stdio::null()).stdout(Stdio::piped()).stderr(Stdio::piped()).spawn()?;
+            let a_out = a.stdout.take().unwrap();
+            let b = sh(cmd_b).stdin(Stdio::from(a_out)).stdout(Stdio::piped()).stderr(Stdio::piped()).spawn()?;
+            (a, b)
+        } else {
+            let mut b = sh(cmd_b).stdin(Stdio::piped()).stdout(Stdio::piped()).stderr(Stdio::piped()).spawn()?;
+            let b_in = b.stdin.take().unwrap();
+            let a = sh(cmd_a).stdin(Stdio::null()).stdout(Stdio::from(b_in)).stderr(Stdio::piped()).spawn()?;
+            (a, b)
+        };
+        let a_stderr = a.stderr.take();
+        let t = std::thread::spawn(move || {
+            use std::io::Read;
+            let mut v = vec![];
+            if let Some(mut e) = a_stderr {
+                let _ = e.read_to_end(&mut v);
+            }
+            v
+        });
+        let out = b.wait_with_output()?;
+        o.out = out.stdout;
+        o.b_err = out.stderr;
+        o.b = Some(out.status);
+        o.a = Some(a.wait()?);
+        o.a_err = t.join().unwrap();
+        Ok(())
+    })();
+    if let Err(e) = r {
+        o.errors.push(format!("oracle:{:?}", e.kind()));
+    }
+    o
+}
+
+async fn pipe_compio(dir: &str, cmd_a: &str, cmd_b: &str) -> PipeObs {
+    let mut o = PipeObs::default();
+    let sh = |c: &str| {
+        let mut x = Command::new("/bin/sh");
+        x.arg("-c").arg(c);
+        x
+    };
+    macro_rules! tri {
+        ($e:expr, $what:literal) => {
+            match $e {
+                Ok(v) => v,
+                Err(e) => {
+                    o.errors.push(format!(concat!($what, ":{:?}"), e.kind()));
+                    return o;
+                }
+            }
+        };
+    }
+    let (mut a, b) = if dir == "out2in" {
+        let mut ca = sh(cmd_a);
+        ca.stdin(Stdio::null()).unwrap().stdout(Stdio::piped()).unwrap().stderr(Stdio::piped()).unwrap();
+        ca.process_group(0);
+        let mut a = tri!(ca.spawn(), "spawn-a");
+        slot().pid.store(a.id() as i32, Ordering::SeqCst);
+        let a_out = a.stdout.take().unwrap();
+        let raw = a_out.as_raw_fd();
+        let mut cb = sh(cmd_b);
+        // `TryFrom<ChildStdout> for Stdio`
+        if cb.stdin(a_out).is_err() {
+            o.errors.push("convert-stdout".into());
+            return o;
+        }
+        o.nonblocking = fd_nonblocking(raw);
+        cb.stdout(Stdio::piped()).unwrap().stderr(Stdio::piped()).unwrap();
+        cb.process_group(a.id() as i32);
+        let b = tri!(cb.spawn(), "spawn-b");
+        drop(cb);
+        (a, b)
+    } else {
+        let mut cb = sh(cmd_b);
+        cb.stdin(Stdio::piped()).unwrap().stdout(Stdio::piped()).unwrap().stderr(Stdio::piped()).unwrap();
+        cb.process_group(0);
+        let mut b = tri!(cb.spawn(), "spawn-b");
+        slot().pid.store(b.id() as i32, Ordering::SeqCst);
+        let b_in = b.stdin.take().unwrap();
+        let raw = b_in.as_raw_fd();
+        let mut ca = sh(cmd_a);
+        ca.stdin(Stdio::null()).unwrap();
+        // `TryFrom<ChildStdin> for Stdio`
+        if ca.stdout(b_in).is_err() {
+            o.errors.push("convert-stdin".into());
+            return o;
+        }
+        o.nonblocking = fd_nonblocking(raw);
+        ca.stderr(Stdio::piped()).unwrap();
+        ca.process_group(b.id() as i32);
+        let a = tri!(ca.spawn(), "spawn-a");
+        drop(ca);
+        (a, b)
+    };
+    let a_stderr = a.stderr.take().unwrap();
+    let he = compio_runtime::spawn(read_loop(a_stderr, 4096, true));
+    let ha = compio_runtime::spawn(async move { a.wait().await });
+    match b.wait_with_output().await {
+        Ok(out) => {
+            bump();
+            o.out = out.stdout;
+            o.b_err = out.stderr;
+            o.b = Some(out.status);
+        }
+        Err(e) => o.errors.push(format!("wait-b:{:?}", e.kind())),
+    }
+    match ha.await {
+        Ok(Ok(st)) => o.a = Some(st),
+        Ok(Err(e)) => o.errors.push(format!("wait-a:{:?}", e.kind())),
+        Err(_) => o.errors.push("task-panic:wait-a".into()),
+    }
+    match he.await {
+        Ok((bytes, e)) => {
+            o.a_err = bytes;
+            if let Some(e) = e {
+                o.errors.push(format!("stderr-a:{e}"));
+            }
+        }
+        Err(_) => o.errors.push("task-panic:stderr-a".into()),
+    }
+    o
+}
+
+/// `pipe <drv> <out2in|in2out> <scriptA> <scriptB> <opts>`: child A's stdout is child B's stdin; the
+/// connecting descriptor goes through compio's `TryFrom<ChildStdout | ChildStdin> for Stdio`
+fn exec_pipe_line(line: &str, ex: &mut Exec) -> String {
+    let w: Vec<&str> = line.split_whitespace().collect();
+    if w.len() != 6 || !["uring", "poll"].contains(&w[1]) || !["out2in", "in2out"].contains(&w[2]) {
+        return "bad-op".into();
+    }
+    let parse = |t: &str| if t == "-" { Some(vec![]) } else { t.split(';').map(parse_act).collect::<Option<Vec<_>>>() };
+    let (Some(sa), Some(sb)) = (parse(w[3]), parse(w[4])) else { return "bad-op".into() };
+    if sa.iter().chain(&sb).any(|a| matches!(a, Act::Copy { blk: 0, .. })) {
+        return "bad-op".into();
+    }
+    let (drv, dir) = (w[1], w[2]);
+    let (cmd_a, cmd_b) = (compile(&sa), compile(&sb));
+    let nops = sa.iter().chain(&sb).filter(|a| **a == Act::Nop).count() as u64;
+    slot().t0_ms.store(now_ms(), Ordering::SeqCst);
+    let okey = format!("pipe|{dir}|{cmd_a}|{cmd_b}");
+    let cached = PIPE_ORACLE.with(|m| m.borrow().as_ref().filter(|(k, _)| *k == okey).map(|(_, o)| o.clone()));
+    let orc = match cached {
+        Some(o) => o,
+        None => {
+            let o = pipe_oracle(dir, &cmd_a, &cmd_b);
+            PIPE_ORACLE.with(|m| *m.borrow_mut() = Some((okey, o.clone())));
+            o
+        }
+    };
+    slot().deadlock.store(false, Ordering::SeqCst);
+    slot().thresh_ms.store(12000 + 3 * NOP_MS * nops, Ordering::Relaxed);
+    let r = with_rt(drv, |rt| rt.block_on(pipe_compio(dir, &cmd_a, &cmd_b)));
+    slot().pid.store(0, Ordering::SeqCst);
+    slot().t0_ms.store(0, Ordering::SeqCst);
+    let o = match r {
+        Ok(o) => o,
+        Err(e) => return e,
+    };
+    let deadlock = slot().deadlock.swap(false, Ordering::SeqCst);
+    ex.tag(format!("drv:{drv}"));
+    ex.tag(format!("pipeline:{dir}"));
+    ex.tag(if o.out.len() > 65536 { "pipeline:>64KiB" } else { "pipeline:<=64KiB" });
+    ex.nontrivial = true;
+    let st = |s: &Option<ExitStatus>| s.as_ref().map(show_status).unwrap_or("none".into());
+    let lossy = |b: &[u8]| String::from_utf8_lossy(&b[..b.len().min(200)]).into_owned();
+    if !orc.errors.is_empty() {
+        ex.fail("C20:harness-oracle", format!("{line}: {:?}", orc.errors));
+    }
+    if o.nonblocking {
+        ex.fail("C20:nonblocking-fd-inherited", format!("{line}: the descriptor converted into Stdio for the second child has O_NONBLOCK set"));
+    }
+    if deadlock {
+        ex.fail("C20:deadlock", format!("{line}: pipeline made no progress; std::process finished with a={} b={}", st(&orc.a), st(&orc.b)));
+        return "deadlock".into();
+    }
+    if !o.errors.is_empty() {
+        ex.fail("C20:io-error", format!("{line}: {:?}", o.errors));
+        return format!("error:{}", o.errors.join("|"));
+    }
+    if o.out != orc.out {
+        ex.fail(
+            "C20:pipeline-truncated",
+            format!("{line}: {} arrived, std::process pipeline delivers {}; stderr a={:?} b={:?}", show_bytes(&o.out), show_bytes(&orc.out), lossy(&o.a_err), lossy(&o.b_err)),
+        );
+    }
+    if o.a != orc.a || o.b != orc.b || o.a_err != orc.a_err || o.b_err != orc.b_err {
+        ex.fail(
+            "C20:pipeline-child-failed",
+            format!("{line}: a={} b={} (std::process: a={} b={}); stderr a={:?} b={:?}", st(&o.a), st(&o.b), st(&orc.a), st(&orc.b), lossy(&o.a_err), lossy(&o.b_err)),
+        );
+    }
+    format!("ok out={} a={} b={}", show_bytes(&o.out), st(&o.a), st(&o.b))
+}
+
 fn exec_line(line: &str, ex: &mut Exec) -> String {
+    if line.starts_with("pipe ") {
+        return exec_pipe_line(line, ex);
+    }
     let Some(sc) = parse_line(line) else { return "bad-op".into() };
     let cmd = compile(&sc.script);
     let payload = if sc.stdin_null { vec![] } else { payload_of(sc.paylen, sc.payseed) };
@@ -1025,7 +1251,7 @@ fn results() -> &'static Results {
 /// Start worker threads on the generated cases. Consecutive cases that differ only in the driver stay on
 /// one worker (they share the oracle run). Corpus and replay cases run on the main thread.
 fn prefetch(cases: &[Case]) {
-    let drop_drv = |c: &Case| c.lines.iter().map(|l| l.replacen("run uring", "run", 1).replacen("run poll", "run", 1)).collect::<Vec<_>>();
+    let drop_drv = |c: &Case| c.lines.iter().map(|l| l.replacen("run uring", "run", 1).replacen("run poll", "run", 1).replacen("pipe uring", "pipe", 1).replacen("pipe poll", "pipe", 1)).collect::<Vec<_>>();
     let mut units: Vec<Vec<Case>> = vec![];
     for c in cases {
         match units.last_mut() {
@@ -1490,6 +1716,37 @@ fn generate(tier: &str, rng: &mut Rng) -> Vec<Case> {
         ];
         sc.opts.push("reaped".into());
         push2(&mut cases, "reaped", sc);
+    }
+
+    // L. pipelines `a | b`: the connecting descriptor goes through `TryFrom<ChildStdout | ChildStdin> for Stdio`;
+    //    slow producer (the consumer finds the pipe empty), slow consumer with more than a pipe holds
+    //    (the producer finds it full), both directions of the conversion, both drivers
+    {
+        let big = |rng: &mut Rng| rng.range(66000, 300000);
+        let mut shapes: Vec<(Vec<Act>, Vec<Act>)> = vec![];
+        for _ in 0..reps(1, 6) {
+            let b1 = *rng.pick(b"pqrs");
+            // slow producer, two bursts
+            shapes.push((
+                vec![Act::Nop, Act::Emit { dst: 'o', byte: b1, n: rng.range(1, 50) }, Act::Nop, Act::Emit { dst: 'o', byte: b1, n: rng.range(1, 5000) }, Act::Exit(0)],
+                vec![cat('o'), Act::Exit(*rng.pick(&CODES))],
+            ));
+            // slow consumer, more than the pipe holds
+            shapes.push((vec![Act::Emit { dst: 'o', byte: b1, n: big(rng) }, Act::Exit(*rng.pick(&CODES))], vec![Act::Nop, cat('o'), Act::Exit(0)]));
+            if thorough {
+                // both fast, large; both slow
+                shapes.push((vec![Act::Emit { dst: 'o', byte: b1, n: big(rng) }, Act::Exit(0)], vec![dd(*rng.pick(&[512u64, 4096]), 'o'), Act::Exit(0)]));
+                shapes.push((vec![Act::Nop, Act::Emit { dst: 'o', byte: b1, n: big(rng) }, Act::Exit(0)], vec![Act::Nop, Act::Nop, cat('o'), Act::Exit(3)]));
+            }
+        }
+        for (a, b) in shapes {
+            for dir in ["out2in", "in2out"] {
+                for drv in ["uring", "poll"] {
+                    let n = cases.len();
+                    cases.push(Case { name: format!("pipeline-{n}"), lines: vec![format!("pipe {drv} {dir} {} {} -", script_text(&a), script_text(&b))] });
+                }
+            }
+        }
     }
 
     // I. random mixtures
